@@ -292,14 +292,14 @@ def setnx (args : List Bytes) : HRes :=
       call (Api.setNX s now k v false) fun s o => done s [.int (match o with | .bool true => 1 | _ => 0)]
   | _ => errReply
 
-/-- INCR / DECR: any error of the API call (non-numeric, overflow) is rendered as a null bulk -/
+/-- INCR / DECR: any error of the API call (non-numeric, overflow) is an error reply -/
 def incrDecr (neg : Bool) (args : List Bytes) : HRes :=
   match args with
   | k :: _ => .exec fun s now _ =>
       call (Api.addInt s now k 1 neg) fun s o =>
         match o with
         | .many [.int v, .err false] => done s [.int v]
-        | _ => done s [.nullBulk]
+        | _ => done s [e]
   | _ => errReply
 
 def incrDecrBy (neg : Bool) (args : List Bytes) : HRes :=
@@ -311,7 +311,7 @@ def incrDecrBy (neg : Bool) (args : List Bytes) : HRes :=
         call (Api.addInt s now k delta neg) fun s o =>
           match o with
           | .many [.int v, .err false] => done s [.int v]
-          | _ => done s [.nullBulk]
+          | _ => done s [e]
   | _ => errReply
 
 def incrByFloat (args : List Bytes) : HRes :=
@@ -326,7 +326,7 @@ def incrByFloat (args : List Bytes) : HRes :=
           match o with
           | .many [.f64 v, .err false] => done s [match Api.formatFloat v with | some t => .bulk t | none => .simple (Bytes.ofString "UNSUPPORTED")]
           | .unsupported => done s [.simple (Bytes.ofString "UNSUPPORTED")]
-          | _ => done s [.nullBulk]
+          | _ => done s [e]
   | _ => errReply
 
 def getString (args : List Bytes) : HRes :=
